@@ -3814,12 +3814,15 @@ XPath::findAttributes(
 
             if (nAttrs != 0)
             {
+                // The step type is eMATCH_ATTRIBUTE when the step of a
+                // match pattern is evaluated (for a positional predicate),
+                // but the node test is one for attributes in either case.
                 const NodeTester    theTester(
                                 *this,
                                 executionContext,
                                 opPos,
                                 argLen,
-                                stepType);
+                                XPathExpression::eFROM_ATTRIBUTES);
 
                 for (XalanSize_t j = 0; j < nAttrs; j++)
                 {
